@@ -71,6 +71,8 @@ def main():
             caught[c] = entry
     finally:
         sh(['git', '-C', str(REPO), 'checkout', '--', '.'])
+        # the generated Lean files are a function of the repository: bring them back to the restored tree
+        sh(['/venv/bin/python', '-c', "import sys; sys.path.insert(0, '.'); import gen; gen.regen_all()"], cwd=VERIF / 'harness')
     dst = VERIF / 'seeded' / f'{pid}-{v}'
     dst.mkdir(parents=True, exist_ok=True)
     for f in ('patch.diff', 'demo.py', 'notes.md'):
